@@ -86,7 +86,7 @@ func listenScenario(sp listenSpec) *explore.Scenario {
 				finished++
 			},
 		}
-		if sp.Caller == "timeout" {
+		if strings.HasPrefix(sp.Caller, "timeout") {
 			d := 10 * time.Second
 			cfg.ListenForReplyTimeout = &d
 		}
@@ -145,18 +145,18 @@ func listenScenario(sp listenSpec) *explore.Scenario {
 			for r := range ch { // until the listener gives up by itself
 				check(r)
 			}
+		case "timeout-never-read": // the caller neither reads nor cancels: only the backend timeout ends the request
+			time.Sleep(time.Minute)
+		case "timeout-read-one":
+			if sp.Replies > 0 {
+				check(<-ch)
+			}
+			time.Sleep(time.Minute)
 		}
 		vs.Quiesce()
 		// the listener must have terminated
+		// (no draining here: the listener has to finish whether or not the caller reads)
 		closed := vs.PeekClosed(ch)
-		if !closed {
-			// a buffered end marker may still sit in the channel: drain what is there
-			for vs.PeekLen(ch) > 0 {
-				check(<-ch)
-			}
-			vs.Quiesce()
-			closed = vs.PeekClosed(ch)
-		}
 		if !closed {
 			vs.Fail("listener-terminates", "caller %q: reply channel not closed at quiescence after the request was cancelled/timed out", sp.Caller)
 		}
@@ -425,7 +425,7 @@ func init() {
 			return listenScenario(x)
 		})
 	}
-	for _, caller := range []string{"drain", "one-then-cancel", "never-read", "cancel-first", "timeout"} {
+	for _, caller := range []string{"drain", "one-then-cancel", "never-read", "cancel-first", "timeout", "timeout-never-read", "timeout-read-one"} {
 		for _, n := range []int{0, 1, 2, 3} {
 			tier := reg.Quick
 			if n == 3 {
